@@ -103,12 +103,13 @@ fn generate_reverse_patches(
         {
             to.clone()
         } else {
-            // Check if any parent directory was renamed
+            // Check if any parent directory was renamed. Directories are renamed shallowest
+            // first and each recorded destination is already re-based on its parents, so the
+            // last (deepest) matching prefix gives the current location.
             let mut current = original_path.clone();
             for (from, to) in &state.renames_performed {
                 if let Ok(relative) = original_path.strip_prefix(from) {
                     current = to.join(relative);
-                    break;
                 }
             }
             current
